@@ -197,8 +197,18 @@ fn case_t<T: Sc>(rng: &mut Rng, case: u64, out: &mut CaseOut, ops: &OpLog) {
                 violation(out, stream, case, format!("regression_standard_error = {se:e} but sqrt(reduced_chi2) = {want_se:e}"), json!({"problem": spec.to_json()}));
             }
         }
-        Err(_fit) => {
+        Err(fit) => {
             out.count(if n <= total { "err_underdetermined" } else if !fit_ok { "err_fit_failed" } else { "err_other" });
+            // "returns the fit result as Err": what comes back is the result of the fit that was run -
+            // the deterministic twin fit above ended the same way at the same parameters
+            let same = fit.termination() == fit0.termination()
+                && fit.report().number_of_evaluations == fit0.report().number_of_evaluations
+                && fit.problem_params().iter().map(|v| v.bits()).eq(fit0.problem_params().iter().map(|v| v.bits()));
+            if !same {
+                violation(out, stream, case, format!("the Err returned by fit_with_statistics is not the result of the fit: termination {} after {} evaluations, the same fit alone ends with {} after {}", fit.termination(), fit.report().number_of_evaluations, fit0.termination(), fit0.report().number_of_evaluations),
+                    json!({"problem": spec.to_json(), "N": n, "M": m, "P": p, "optimizer": cfg.to_json()}));
+                return;
+            }
         }
     }
     if fit_ok && n <= total {
@@ -242,7 +252,7 @@ pub fn case(rng: &mut Rng, case: u64, out: &mut CaseOut, ops: &OpLog) {
 }
 
 pub fn run(ctx: &Ctx) {
-    ctx.rule("shape sweep: M in 1..6 x P in 1..4 x N in 1..M+P+3 (so N<M+P, N=M+P, N=M+P+1 occur for every shape), zoo models with shared parameters, exact or slightly noisy data so that the fit itself succeeds and the statistics stage is reached; all weight classes; f32/f64; default and random optimizer settings (whether the fit failed is judged by the optimizer's own termination report); 8 % of the cases carry one NaN/infinite observation, so that the fit must fail; plus a model failure injected at every model call of the statistics stage (transient and persistent). Executed in child processes of the overflow-checked and the release build. distinct = hash(problem, N); every case is non-trivial (it reaches fit_with_statistics)");
+    ctx.rule("shape sweep: M in 1..6 x P in 1..4 x N in 1..M+P+3 (so N<M+P, N=M+P, N=M+P+1 occur for every shape), zoo models with shared parameters, exact or slightly noisy data so that the fit itself succeeds and the statistics stage is reached; all weight classes; f32/f64; default and random optimizer settings (whether the fit failed is judged by the optimizer's own termination report); 8 % of the cases carry one NaN/infinite observation, so that the fit must fail; every Err must carry the result of the fit itself (same termination, evaluation count and parameters as the deterministic twin fit); plus a model failure injected at every model call of the statistics stage (transient and persistent). Executed in child processes of the overflow-checked and the release build. distinct = hash(problem, N); every case is non-trivial (it reaches fit_with_statistics)");
     ctx.assume("Ok is not demanded for N > M+P (a singular normal matrix may legitimately give Err); only Ok => identities and (N<=M+P or failed fit or failing model) => Err, never a panic");
     let n = ctx.tier.pick(4800, 240000);
     let wall = ctx.tier.pick(60.0, 1200.0);
